@@ -130,6 +130,69 @@ def close_emit_fails(I):
             {"replay": "bundler.lifecycle"})
 
 
+@task("bundler.open_run.emit_fails", PROP, functions=[f"{Q}.open_run"],
+      expect=[f"{Q}.open_run#ensures[a run whose start document went out is reported open - also when delivering it (or the interruptions descriptor) fails - so the engine will close it]"],
+      covers=["start delivery fails", "descriptor delivery fails"])
+def open_emit_fails(I):
+    """some subscribers may already have received the start when a later one raises: from then on the run must count as open, or
+    nobody will ever emit its stop (the engine's epilogue closes exactly the runs that report run_is_open)"""
+    w = I.w
+    env = Env(I)
+    rec = w.choose([False, True], "record_interruptions")
+    b = new_bundler(I, env, record_interruptions=rec)
+    boom = Obj(BUILTIN_CLASSES["ValueError"], {"args": ("callback failed",), "__cause__": None}, label="callback_error")
+    fail_at = w.choose(["start", "descriptor"] if rec else ["start"], "delivery that fails")
+    sent = []
+
+    def emit(I_, a, k):
+        sent.append(docname(a[0]))
+        if docname(a[0]) == fail_at:
+            return Ready(None, exc=boom)
+        return Ready(None)
+    b.attrs["emit"] = native(emit)
+    r = call_async(I, I.getattr(b, "open_run"), MsgVal("open_run", None, (), {}, None))
+    w.cover("start delivery fails" if fail_at == "start" else "descriptor delivery fails")
+    w.check(f"{Q}.open_run#ensures[a run whose start document went out is reported open - also when delivering it (or the interruptions descriptor) fails - so the engine will close it]",
+            r[0] == "raise" and r[1] is boom and sent[0] == "start" and b.run_is_open is True, {"replay": "bundler.open_emit_fails", "fail_at": fail_at})
+
+
+@task("bundler.close_run.monitors_suspended", PROP, functions=[f"{Q}.close_run", f"{Q}.suspend_monitors", f"{Q}.monitor", f"{Q}.clear_monitors"],
+      expect=[f"{Q}.close_run#ensures[the stop is emitted also when the run's monitors are suspended and the device refuses to unsubscribe an unknown callback]"])
+def close_monitors_suspended(I):
+    """an abort / stop / failure arriving while the engine is paused or suspended closes runs whose monitors are not subscribed at that moment"""
+    w = I.w
+    env = Env(I)
+    b, uid = opened_bundler(I, env)
+    w.stubs[(MB, "check_supports")] = native(lambda I_, a, k: a[0])
+    w.stubs["asyncio.gather"] = lambda I_, a, k: Ready([run_coro(I_, c) if isinstance(c, GenObj) else c for c in a])
+    w.stubs[(MB, "maybe_update_hints")] = native(lambda I_, a, k: None)
+    sig = cfg_device(I, w, b, "sig", ["s"], {"gain": 2, "ts": 0})
+    subs = []
+    bad = Obj(BUILTIN_CLASSES["ValueError"], {"args": ("callback is not subscribed",), "__cause__": None}, label="strict_device")
+
+    def subscribe(I_, o, a, k):
+        subs.append(a[0])
+
+    def clear_sub(I_, o, a, k):
+        if not any(a[0] is c for c in subs):
+            raise PyRaise(bad)
+        subs[:] = [c for c in subs if c is not a[0]]
+    sig.spec["methods"]["subscribe"] = subscribe
+    sig.spec["methods"]["clear_sub"] = clear_sub
+    r0 = call_async(I, I.getattr(b, "monitor"), MsgVal("monitor", sig, (), {"name": "mon"}, None))
+    suspended = w.choose([True, False], "monitors suspended when the run is closed")
+    if suspended:
+        call_async(I, I.getattr(b, "suspend_monitors"))
+    via_epilogue = w.choose([True, False], "clear_monitors first (the engine's epilogue)")
+    if via_epilogue:
+        catch(I, I.getattr(b, "clear_monitors"))
+    n0 = len(env.emitted)
+    r = call_async(I, I.getattr(b, "close_run"), MsgVal("close_run", None, (), {"exit_status": "abort", "reason": ""}, None))
+    w.check(f"{Q}.close_run#ensures[the stop is emitted also when the run's monitors are suspended and the device refuses to unsubscribe an unknown callback]",
+            r0[0] == "ok" and r[0] == "ok" and [n for n, d in env.emitted[n0:]] == ["stop"] and not subs and b.run_is_open is False,
+            {"replay": "bundler.close_monitors_suspended", "suspended": suspended, "via_epilogue": via_epilogue})
+
+
 @task("engine.registry", PROP, functions=[f"{RE}._open_run", f"{RE}._close_run"],
       expect=[f"{RE}._close_run#ensures[closes exactly the run of its key, emits its stop, forgets it]"])
 def registry(I):
